@@ -101,6 +101,21 @@ def recompute_funcs(ctx):
             if isinstance(v, ast.Call) and is_name(v.func, 'min') and v.args and is_name(v.args[0], f.params[0]) and \
                     any(k.arg == 'default' and is_const(k.value, None) for k in v.keywords):
                 out.add(f.name)
+    # wrappers: `def f(xs): return g(xs)` with g a recompute function
+    grew = True
+    while grew:
+        grew = False
+        for f in ctx.prog.all_funcs():
+            if f.module is not mod or f.cls is not None or f.outer is not None or len(f.params) != 1 or f.name in out:
+                continue
+            rets = [n for n in walk_no_nested(strip_docstring(f.node.body)) if isinstance(n, ast.Return)]
+            from ..astutil import expand_names as _xn
+            vals = [_xn(f.node, r.value) if r.value is not None else None for r in rets]
+            if rets and all(isinstance(v, ast.Call) and call_name(v) in out and len(v.args) == 1 and is_name(v.args[0], f.params[0])
+                            and not v.keywords for v in vals):
+                out.add(f.name)
+                f._is_wrapper = True        # the comparison is in the function it delegates to
+                grew = True
     ctx._recompute_funcs = out
     return out
 
@@ -393,7 +408,7 @@ def rules(ctx):
                  "the recomputation %s: callers recompute exactly because the cached best may be stale, and an element "
                  "added by item assignment can be smaller than it" % ("reads the cached `.best`" if stale else
                                                                       "leaves its scan early (break / continue / return)"))
-        if not found:
+        if not found and not getattr(rb, '_is_wrapper', False):
             raise AnalysisError("_recompute_best: no recognisable comparison")
         # None on empty: initial value None returned if loop does not run
         rets = [n for n in walk_no_nested(rb.node.body) if isinstance(n, ast.Return)]
